@@ -241,7 +241,38 @@ def c16_strategy(ctx):
     return st.tuples(base, st.lists(call, min_size=2, max_size=3)).map(lambda t: {**t[0], "calls": t[1]})
 
 
+def c16_stress_strategy(ctx):
+    """Thread backend, 1 us switch interval: the consumer is pre-empted anywhere in the retrieval loop while completion
+    callbacks register results and dispatch further batches."""
+    call = st.fixed_dictionaries({"n": st.sampled_from([30, 30, 50, 150, 400]), "sleeps": st.sampled_from([[0], [0, 0, 0, 1], [1], [0, 0.2, 0.4]]),
+                                  "action": st.sampled_from(["exhaust", "exhaust", "exhaust", "close"]), "after": st.integers(0, 40)})
+
+    def expand(spec):
+        # short runs are repeated: the races looked for need a pre-emption inside a window of a few bytecodes
+        reps = max(1, 600 // max(1, sum(c["n"] for c in spec["calls"])))
+        return {**spec, "calls": spec["calls"] * reps}
+    return st.fixed_dictionaries({
+        "mode": st.just("real"), "stress": st.just(True), "backend": st.just("threading"),
+        "n_jobs": st.sampled_from([2, 3, 4, 8]), "batch_size": st.sampled_from([1, 1, 2, "auto"]),
+        "pre_dispatch": st.sampled_from([1, 1, 3, "n_jobs", "2*n_jobs", 50, "all"]),
+        "return_as": st.sampled_from(["generator", "generator_unordered", "generator_unordered"]), "managed": st.booleans(),
+        "calls": st.lists(call, min_size=3, max_size=6),
+    }).map(expand)
+
+
 def run_c16(spec):
+    import sys
+    if spec.get("stress"):
+        old = sys.getswitchinterval()
+        sys.setswitchinterval(1e-6)
+        try:
+            return _run_c16(spec)
+        finally:
+            sys.setswitchinterval(old)
+    return _run_c16(spec)
+
+
+def _run_c16(spec):
     warnings.simplefilter("ignore")
     scratch = os.environ.get("VF_SCRATCH", "/tmp")
     logpath = os.path.join(scratch, "real-%d.log" % os.getpid())
@@ -318,5 +349,6 @@ def run_c16(spec):
                 pass
         if os.path.exists(logpath):
             os.unlink(logpath)
-    return {"nontrivial": nontrivial, "classes": ["real", "real-backend=" + spec["backend"], "return_as=" + spec["return_as"]]}
+    return {"nontrivial": nontrivial, "classes": ["real", "real-backend=" + spec["backend"], "return_as=" + spec["return_as"]]
+            + (["switch-interval-stress"] if spec.get("stress") else [])}
 
